@@ -3,13 +3,15 @@ import Rivaas.Model.Compress
 import Rivaas.Spec.Compress
 /-
 Driver for C15. Case line:
-  <id> <A|N> <minSize> <gzip> <br> <exclCT…> <exclPaths…> <exclExts…> <path> <accept-encoding> <recovery> <HEAD request: 0|1>
+  <id> (<A|N> <minSize> <gzip> <br> <exclCT…> <exclPaths…> <exclExts…> | O <nOpts> {opt}*) <path> <accept-encoding> <recovery> <HEAD request: 0|1>
        <nPre> {<key> <n> <val>*}*   (headers an outer middleware set before the chain reached the compression middleware)
        <nSniff> {<prefix> <type>}* <nOps> {op}*  =>  <obs without middleware> <obs with middleware>
   op  ::= H <key> <n> <val>* | D <key> | W <code> | B <bytes> | F | C <n> <bytes>* | X
   obs ::= P | E | R <status> <nh> {<key> <n> <val>*}* <ntrailers> {<key> <n> <val>*}* <wire body longer than 2048: 0|1> (0 | 1 <decoded body>) <nOuts> {<flag> <n> <err>}*
   bytes ::= h:<hex> | z:<seg>.<seg>…   with seg ::= <hex> | <hexbyte>*<count>
-`A` selects the model of the code as shipped, `N` the model of the code as it is now.
+  opt ::= gl <int> | bl <int> | nb | ng | ms <int> | ep <strs> | ee <strs> | ect <strs> | lg
+`A` selects the model of the code as shipped, `N` the model of the code as it is now, `O` the model of the code as it
+is now with the configuration computed by the model from the option list (`Compress.config`).
 -/
 namespace Rivaas.DriverC15
 open Rivaas.Proto Rivaas.Http Rivaas.Compress Rivaas.CompressSpec
@@ -79,14 +81,38 @@ structure Case where
   sniffTab : List (Bytes × Bytes)
   ops : List Op
 
+/-- one functional option, as the harness handed it to `compression.New` -/
+def pOpt : P Opt := do
+  let k ← tok
+  if k == "gl" then Opt.gzipLevel <$> int
+  else if k == "bl" then Opt.brotliLevel <$> int
+  else if k == "nb" then pure .brotliDisabled
+  else if k == "ng" then pure .gzipDisabled
+  else if k == "ms" then Opt.minSize <$> int
+  else if k == "ep" then Opt.exclPaths <$> list str
+  else if k == "ee" then Opt.exclExts <$> list str
+  else if k == "ect" then Opt.exclCT <$> list str
+  else if k == "lg" then pure .logger
+  else failure
+
+/-- the configuration: either its fields (tags `A` / `N`) or, tag `O`, the list of options in the order they were
+    given to `New` — the model folds them over `defaultConfig` (`Compress.config`) -/
+def pCfg (tag : String) : P Cfg := do
+  if tag == "O" then do
+    let opts ← list pOpt
+    pure (config opts).toCfg
+  else do
+    let ms ← nat
+    let gz ← bool
+    let br ← bool
+    let ect ← list str
+    let ep ← list str
+    let ee ← list str
+    pure ⟨ms, gz, br, ect, ep, ee⟩
+
 def pCase : P Case := do
   let tag ← tok
-  let ms ← nat
-  let gz ← bool
-  let br ← bool
-  let ect ← list str
-  let ep ← list str
-  let ee ← list str
+  let cfg ← pCfg tag
   let path ← str
   let ae ← str
   let rc ← bool
@@ -94,7 +120,7 @@ def pCase : P Case := do
   let pre ← list (do let key ← str; let vs ← list str; pure (key, vs))
   let tab ← list (do let p ← pBytes; let t ← str; pure (p, t))
   let ops ← list pOp
-  pure { asis := tag == "A", cfg := ⟨ms, gz, br, ect, ep, ee⟩, path := path, ae := ae, recovery := rc, head := hd, pre := pre, sniffTab := tab, ops := ops }
+  pure { asis := tag == "A", cfg := cfg, path := path, ae := ae, recovery := rc, head := hd, pre := pre, sniffTab := tab, ops := ops }
 
 /-- http.DetectContentType as shipped by the harness (looked up on the first 512 bytes); an
     argument the harness did not anticipate yields a marker that cannot equal a real type -/
